@@ -772,18 +772,43 @@ func Slack() float64 {
 // one goroutine alive for the whole limit of every call, hundreds of thousands of them in a thorough run, and under the
 // race detector that cost gigabytes per process (thorough run #13: the kernel killed C09 and C20 shards, exit 2).
 func After(d time.Duration) <-chan time.Time {
+	ch, _ := AfterStop(d)
+	return ch
+}
+
+// AfterStop is After with a function that releases the timer once the wait is over. Callers that wait many thousand
+// times a second (the byte-level fuzz targets) must call it: a timer that is not stopped stays with the runtime until
+// its limit has passed, and a million pending ones stalled the fuzz workers of C20 in thorough run #15 (exit 2).
+func AfterStop(d time.Duration) (<-chan time.Time, func()) {
 	ch := make(chan time.Time, 1)
 	start := time.Now()
+	var mu sync.Mutex
+	var timer *time.Timer
+	stopped := false
 	var look func()
 	look = func() {
+		mu.Lock()
+		defer mu.Unlock()
+		if stopped {
+			return
+		}
 		if time.Since(start) >= time.Duration(float64(d)*Slack()) {
 			ch <- time.Now()
 			return
 		}
-		time.AfterFunc(time.Second, look)
+		timer = time.AfterFunc(time.Second, look)
 	}
-	time.AfterFunc(d, look)
-	return ch
+	mu.Lock()
+	timer = time.AfterFunc(d, look)
+	mu.Unlock()
+	return ch, func() {
+		mu.Lock()
+		stopped = true
+		if timer != nil {
+			timer.Stop()
+		}
+		mu.Unlock()
+	}
 }
 
 // WithDeadline runs f in a goroutine of its own and reports whether it returned within d.
@@ -800,10 +825,12 @@ func WithDeadline(d time.Duration, f func()) (finished bool, err error) {
 		}()
 		f()
 	}()
+	limit, release := AfterStop(d)
+	defer release()
 	select {
 	case e := <-done:
 		return true, e
-	case <-After(d):
+	case <-limit:
 		return false, nil
 	}
 }
@@ -1232,9 +1259,11 @@ func RunInChild[C any](s *Sub[C], c C, limit time.Duration, memMB int) ChildResu
 	}
 	done := make(chan error, 1)
 	go func() { done <- cmd.Wait() }()
+	childLimit, releaseChildLimit := AfterStop(limit)
+	defer releaseChildLimit()
 	select {
 	case <-done:
-	case <-After(limit):
+	case <-childLimit:
 		_ = syscall.Kill(-cmd.Process.Pid, syscall.SIGKILL)
 		<-done
 		return ChildResult{"timeout", tail(out.String(), 3000)}
